@@ -707,7 +707,28 @@ impl Installer for SimInstaller {
                         }
                         c
                     };
-                    let mut fut = obs.receive_progress(Some("sim"), value, Some(100), Some(i + 1));
+                    let concurrent = !cancel && {
+                        let _g = EnvGuard::enter();
+                        let mut w = lock(&shared);
+                        let rate = w.profile.installer.concurrent_progress_permille;
+                        let c = w.draws.chance(&format!("{label}/progress#{i}/concurrent"), rate);
+                        if c {
+                            w.stat("embedder.progress_reports_in_flight_together");
+                            // a second worker's report, started before the first one returned
+                            w.rec(Kind::Installer(InstallerRec::ProgressSent { value: (value * 0.5).to_bits() }));
+                        }
+                        c
+                    };
+                    if concurrent {
+                        let a = obs.receive_progress(Some("sim"), value, Some(100), Some(i + 1));
+                        let b = obs.receive_progress(Some("sim-worker-2"), value * 0.5, Some(100), Some(i + 1));
+                        futures::future::join(a, b).await;
+                        let _g = EnvGuard::enter();
+                        let mut w = lock(&shared);
+                        w.rec(Kind::Installer(InstallerRec::ProgressReturned { value: (value * 0.5).to_bits() }));
+                        drop(w);
+                    }
+                    let mut fut = if concurrent { futures::future::ready(()).boxed() } else { obs.receive_progress(Some("sim"), value, Some(100), Some(i + 1)) };
                     if cancel {
                         // the report is started (the value is handed over) and then abandoned,
                         // as an installer does that wraps its reports in a timeout
